@@ -652,9 +652,15 @@ class Visitor:
         Parameters:
             node: The node to visit.
         """
+        type_guarded = self.type_guarded
+        guards_types = False
         if isinstance(node.parent, (ast.Module, ast.ClassDef)):  # type: ignore[attr-defined]
             condition = safe_get_condition(node.test, parent=self.current, log_level=None)
             if str(condition) in {"typing.TYPE_CHECKING", "TYPE_CHECKING"}:
-                self.type_guarded = True
-        self.generic_visit(node)
-        self.type_guarded = False
+                guards_types = True
+        for child in ast_children(node):
+            # Only the body of `if TYPE_CHECKING:` is type-guarded, not its `else` branch,
+            # and a nested `if` must not un-guard the rest of an enclosing guarded block.
+            self.type_guarded = type_guarded or (guards_types and child in node.body)
+            self.visit(child)
+        self.type_guarded = type_guarded
